@@ -239,7 +239,12 @@ class Scrollable(WidgetDecoration[WrappedWidget]):
             canv.pad_trim_top_bottom(0, fill_height)
 
         if canv_cols <= maxcol and canv_rows <= maxrow:
-            # Canvas is small enough to fit without trimming
+            # Canvas is small enough to fit without trimming: nothing is scrolled, so reset the
+            # scroll position and drop a pending action, as _adjust_trim_top does for short content
+            self._scroll_action = None
+            if self._trim_top != 0:
+                self._trim_top = 0
+                self._invalidate()  # canvases cached for other sizes show the old position
             return canv
 
         old_trim_top = self._trim_top
